@@ -16,8 +16,24 @@ import time
 VERIF = os.path.dirname(os.path.dirname(os.path.abspath(__file__)))
 
 
+def ensure_atheris() -> bool:
+    """atheris lives in VERIF/.deps (installed by MANIFEST.setup_cmd); install it from the offline wheelhouse if a
+    checkout without .deps is used (e.g. a snapshot)."""
+    deps = os.path.join(VERIF, ".deps")
+    probe = [sys.executable, "-c", "import sys; sys.path.insert(0, %r); import atheris" % deps]
+    if subprocess.run(probe, stdout=subprocess.DEVNULL, stderr=subprocess.DEVNULL).returncode == 0:
+        return True
+    os.makedirs(deps, exist_ok=True)
+    subprocess.run([sys.executable, "-m", "pip", "install", "--quiet", "--no-index", "--find-links", "/opt/veriftools/wheels",
+                    "--target", deps, "atheris"], stdout=subprocess.DEVNULL, stderr=subprocess.DEVNULL)
+    return subprocess.run(probe, stdout=subprocess.DEVNULL, stderr=subprocess.DEVNULL).returncode == 0
+
+
 def fuzz_unit(check, stats, *, mode, runs, seed, label, known_ids=(), corpus=(), max_len=2048, wall_s=600):
     t0 = time.time()
+    if not ensure_atheris():
+        stats.errors.append("%s: atheris is not importable and could not be installed from /opt/veriftools/wheels" % label)
+        return
     work = tempfile.mkdtemp(prefix="vfuzz-%s-" % label)
     cdir = os.path.join(work, "corpus")
     adir = os.path.join(work, "artifacts")
